@@ -818,6 +818,30 @@ pub fn run(ctx: &Ctx) -> i32 {
                 }
             }
         }
+        // The same received value gives the same domain error whichever integer kind carried it: a zero is
+        // "a zero" for a signed NonZero target both as Integer(0) and as NegativeInteger(0) (only the second
+        // value source can present the latter). Wording-free: the two messages are compared with each other.
+        if shard == 0 {
+            for t in ts.iter().filter(|t| matches!(t.class, Class::Signed { nonzero: true, .. })) {
+                let a = (t.ov)(&Ov::Int(0));
+                let b = (t.ov)(&Ov::Neg(0));
+                acc.eval();
+                acc.count("zero_presented_as_both_integer_kinds");
+                let msg = |r: &Run| r.reports().next().and_then(|x| if let RKind::Unexpected { msg } = &x.kind { Some(msg.clone()) } else { None });
+                let (ma, mb) = (msg(&a), msg(&b));
+                if ma.is_none() || ma != mb {
+                    let e = expect(t.class, &Ov::Neg(0));
+                    report(
+                        &mut acc,
+                        vec![Finding::new(
+                            format!("C05/zero-identified-differently-by-integer-kind/{}", t.name),
+                            "0 into a signed NonZero target is reported differently as NegativeInteger(0) than as Integer(0): one of the two does not identify a zero".to_string(),
+                            wit(t, &Ov::Neg(0), Source::Ov, &e, &b, format!("Integer(0): {ma:?} ; NegativeInteger(0): {mb:?}")),
+                        )],
+                    );
+                }
+            }
+        }
         for (i, p) in inputs.iter().enumerate() {
             if !shard_of(i as u64, shard, n) {
                 continue;
